@@ -6,6 +6,8 @@ from props import c08
 LEVEL = "model_checking"
 FAMS = [("blake", "TraceCtrBlake"), ("groestl", "TraceCtrGroestl"), ("jh", "TraceCtrJH"), ("skein", "TraceCtrSkein")]
 STREAMS_Q = [("blake256", "TraceCtrBlake"), ("jh256", "TraceCtrJH")]
+BIG = {"TraceCtrBlake": ["blake256", "blake512", "blake224", "blake384"], "TraceCtrGroestl": ["groestl256", "groestl512", "groestl224", "groestl384"],
+       "TraceCtrJH": ["jh256", "jh512"], "TraceCtrSkein": ["skein256", "skein512", "skein1024"]}
 STREAMS_T = [("blake224", "TraceCtrBlake"), ("skein512", "TraceCtrSkein"), ("skein256", "TraceCtrSkein")]
 
 
@@ -46,13 +48,45 @@ def run(c):
                                 mutate2, "real streaming %s" % which, workers=2)
         traces += len(recs)
         c.add_events(recs, key=lambda e: (e["alg"], e["base"], e["rest"][:64]), sample=1)
+    # one update call of more than 2^32 bytes (per-call arithmetic on data.len()) against the same message fed in pieces
+    from concurrent.futures import ThreadPoolExecutor
+    jobs = []
+    for module, names in BIG.items():
+        for i, which in enumerate(names):
+            if c.thorough or i == c.seed % len(names):
+                jobs.append((module, which))
+
+    def big(job):
+        module, which = job
+        trace = os.path.join(wd, "big-%s.ndjson" % which)
+        vlib.run_harness(binary, ["c17-big", "--which", which], out=trace, timeout=3000)
+        recs = vlib.read_ndjson(trace)
+        os.remove(trace)
+        return module, which, recs
+    with ThreadPoolExecutor(max_workers=6) as ex:
+        bigs = list(ex.map(big, jobs))
+    for module in BIG:
+        recs = [e for m, w, rs in bigs if m == module for e in rs]
+        if not recs:
+            continue
+
+        def mutate3(e):
+            e["base"][2] ^= 1      # a counter short by 2^32 units must be rejected
+        vlib.validate_stateless(c, module, recs, lambda e: {"ev": e["ev"], "alg": e["alg"], "tag": e["tag"], "res": e["res"].split(":")[0], "build": "std-rel"},
+                                mutate3, "one update call > 2^32 bytes (%s)" % module, workers=2)
+        traces += len(recs)
+        c.add_events(recs, key=lambda e: (e["alg"], e["tag"], e["base"]), sample=1)
+    c.cov["one_call_4GiB"] = [w for m, w in jobs]
     c.cov["traces_validated_against_impl"] = traces
     c.cov["exhaustive_small_model"] = True
     c.cov["rule"] = ("(1) TLC: HashBuf.tla CounterExact/FinalRight for every message length up to several wraps of a scaled low counter word, all partitions, four hasher kinds. "
                      "(2) real code: on a new instance hook H2 sets the counter to X - k blocks for X in {2^32, 7*2^32 bits (BLAKE-224/256), 2^64, 3*2^64 bits (BLAKE-384/512), 2^8, 2^16, 2^32, 2^40 blocks "
                      "(Groestl), 2^32 bits, 2^32 bytes, near 2^61 bytes (JH), 2^32, 2^40 bytes (Skein)}, then k+j real blocks plus a partial block cross the boundary through the real increment code; "
                      "TLC recomputes the digest from (IV, amount absorbed, remaining bytes) with the hash specifications. (3) really streamed messages (512 MiB BLAKE-256 and JH-256; thorough: BLAKE-224, "
-                     "4 GiB Skein-256/512) with a checkpoint (chaining value, counter, buffered bytes) before the boundary: counter must equal the amount fed and the digest the specification's value.")
+                     "4 GiB Skein-256/512) with a checkpoint (chaining value, counter, buffered bytes) before the boundary: counter must equal the amount fed and the digest the specification's value. "
+                     "(4) ONE update call of 2^32+k bytes after a short prefix (one variant per family in quick, rotating with the seed; all 13 in thorough), checkpointed the same way, and the same message fed "
+                     "in <1 GiB pieces: counter = amount fed, identical chaining value / counter / digest for both feedings, digest recomputed by the specification from the checkpoint (Groestl: no "
+                     "chaining-value hook, so block-count law and equality with the chunk-fed digest only).")
     c.assumptions += ["fast-forward is sound because conformance of compression is a statement about (chaining value, block, counter) triples; the chaining value used is the IV",
                       "Groestl 2^16 / 2^32 blocks are reached by fast-forward only"]
     return c.finish()
